@@ -17,6 +17,7 @@ from pathlib import Path
 from harness import core, staging_common as sc
 
 LEVEL = "model_checking"
+MAX_RECORDED = 12  # replay files written per run (the rest is only counted)
 POOL = ["F1", "F2", "G3", "N1", "S1", "S2", "P1"]
 MODES = ["any", "copy", "link", "hardlink", "symlink", "link_or_copy", "hardlink_or_copy"]
 COLLS = ["any", "siblings", "adjacent"]
@@ -263,6 +264,9 @@ def run(ctx):
             ctx.observe("case not evaluated: " + str(d), {"fields": case["fields"]})
             continue
         if v != "ok":
+            if len(ctx.violations) >= MAX_RECORDED:
+                ctx.extra["violations_not_recorded"] = ctx.extra.get("violations_not_recorded", 0) + 1
+                continue
             v2, d2, obs2, _ = check(a)  # deterministic code: a genuine defect reproduces (shared machine)
             if v2 == "ok":
                 ctx.observe("non-reproducible failure (environment)", {"fields": case["fields"], "first": f"{v}: {d}"})
